@@ -2,10 +2,10 @@ package main
 
 import (
 	"fmt"
-	"strings"
 	"go/ast"
 	"go/token"
 	"go/types"
+	"strings"
 )
 
 type outcome struct {
@@ -573,7 +573,14 @@ func (x *Exec) assignedIn(nodes ...ast.Node) map[types.Object]bool {
 						e = t.X
 						continue
 					case *ast.SelectorExpr:
-						// assignment to a field of a struct-valued local
+						// assignment to a field of a struct-valued local; a
+						// store THROUGH a pointer (p.f = v, p a pointer)
+						// changes the heap, not the variable p
+						if tv, ok := info.Types[t.X]; ok {
+							if _, isPtr := tv.Type.Underlying().(*types.Pointer); isPtr {
+								return
+							}
+						}
 						e = t.X
 						continue
 					case *ast.Ident:
@@ -747,9 +754,7 @@ func (x *Exec) forStmt(s *ast.ForStmt, st *State, label string) outcome {
 	// arbitrary iteration
 	x.havocLoop(st, lc, ord, bodyPos, s.Cond, s.Body, s.Post)
 	env = x.invEnv(st, bodyPos, nil)
-	for _, inv := range invs {
-		st.assume(env.evalBool(inv.E))
-	}
+	x.assumeInvs(st, lc, env, invs)
 	head := st.clone()
 	var cond *Term = tTrue
 	if s.Cond != nil {
@@ -965,9 +970,7 @@ func (x *Exec) rangeStmt(s *ast.RangeStmt, st *State, label string) outcome {
 	}
 	bindKV(st, false)
 	env = x.invEnv(st, bodyPos, extra(st))
-	for _, inv := range invs {
-		st.assume(env.evalBool(inv.E))
-	}
+	x.assumeInvs(st, lc, env, invs)
 	head := st.clone()
 	exitSt := st.clone()
 	exitSt.assume(Eq(k, nName))
@@ -1039,5 +1042,33 @@ func (x *Exec) exitAsserts(ord int, st *State, pos token.Pos) {
 		}
 		x.oblige(st, "assert", fmt.Sprintf("%s@%s", label, anchor), t, pos, a.Cl.Src)
 		st.assume(t)
+	}
+}
+
+// assumeInvs assumes a loop's invariants at the head of an arbitrary
+// iteration and remembers which path-condition entries are invariant facts.
+// With `loop N forget` the invariant facts of enclosing loops are dropped
+// first: the contract declares this loop's invariant self-contained, and
+// dropping hypotheses is always sound. It keeps the solver's context small
+// in deep loop nests (stale facts about superseded heap versions).
+func (x *Exec) assumeInvs(st *State, lc *LoopContract, env *CEnv, invs []Clause) {
+	if x.invFacts == nil {
+		x.invFacts = map[*Term]bool{}
+	}
+	if lc.Forget {
+		var keep []*Term
+		for _, t := range st.pc {
+			if !x.invFacts[t] {
+				keep = append(keep, t)
+			}
+		}
+		st.pc = keep
+	}
+	n := len(st.pc)
+	for _, inv := range invs {
+		st.assume(env.evalBool(inv.E))
+	}
+	for _, t := range st.pc[n:] {
+		x.invFacts[t] = true
 	}
 }
